@@ -379,15 +379,77 @@ func format(sb *strings.Builder, v any) {
 	}
 }
 
-// Equal is structural equality; the tuple <<"ANY">> on the expected side matches anything.
-func Equal(exp, obs any) bool {
-	switch e := exp.(type) {
+// AsMap views a value as a string-keyed map: a record, a function with string keys,
+// or the empty tuple (TLC prints the empty function as << >>).
+func AsMap(v any) (map[string]any, bool) {
+	switch x := v.(type) {
+	case map[string]any:
+		return x, true
+	case Fn:
+		m := make(map[string]any, len(x.Keys))
+		for i, k := range x.Keys {
+			ks, ok := k.(string)
+			if !ok {
+				return nil, false
+			}
+			m[ks] = x.Vals[i]
+		}
+		return m, true
 	case []any:
-		if len(e) == 1 {
-			if s, ok := e[0].(string); ok && s == "ANY" {
+		if len(x) == 0 {
+			return map[string]any{}, true
+		}
+	}
+	return nil, false
+}
+
+func isAny(v any) bool {
+	t, ok := v.([]any)
+	if !ok || len(t) != 1 {
+		return false
+	}
+	s, ok := t[0].(string)
+	return ok && s == "ANY"
+}
+
+// Equal is structural equality between an expected value (from the specification) and an
+// observed one. <<"ANY">> on either side matches anything; an expected <<"oneof", a, b, ...>>
+// matches when one of the alternatives does; records, string-keyed functions and the empty
+// tuple compare as maps.
+func Equal(exp, obs any) bool {
+	if isAny(exp) || isAny(obs) {
+		return true
+	}
+	if t, ok := exp.([]any); ok && len(t) >= 2 {
+		if s, ok := t[0].(string); ok && s == "oneof" {
+			for _, alt := range t[1:] {
+				if Equal(alt, obs) {
+					return true
+				}
+			}
+			return false
+		}
+	}
+	if em, ok := AsMap(exp); ok {
+		if om, ok := AsMap(obs); ok {
+			_, eTuple := exp.([]any)
+			_, oTuple := obs.([]any)
+			if !(eTuple && oTuple) {
+				if len(em) != len(om) {
+					return false
+				}
+				for k, ev := range em {
+					ov, ok := om[k]
+					if !ok || !Equal(ev, ov) {
+						return false
+					}
+				}
 				return true
 			}
 		}
+	}
+	switch e := exp.(type) {
+	case []any:
 		o, ok := obs.([]any)
 		if !ok || len(o) != len(e) {
 			return false
@@ -398,26 +460,14 @@ func Equal(exp, obs any) bool {
 			}
 		}
 		return true
-	case map[string]any:
-		o, ok := obs.(map[string]any)
-		if !ok || len(o) != len(e) {
-			return false
-		}
-		for k, ev := range e {
-			ov, ok := o[k]
-			if !ok || !Equal(ev, ov) {
-				return false
-			}
-		}
-		return true
+	case map[string]any, Fn:
+		return false
 	case Set:
 		o, ok := obs.(Set)
 		if !ok || len(o.Elems) != len(e.Elems) {
 			return false
 		}
 		return Format(e) == Format(o)
-	case Fn:
-		return Format(exp) == Format(obs)
 	case int64:
 		switch o := obs.(type) {
 		case int64:
